@@ -1,7 +1,7 @@
 """C13 — hash256 is a structural fingerprint computed as real SHA-256 (DESIGN.md §5 C13)."""
 import vcheck, os
 
-MODULES = ["BeffVerif.Props.C13", "BeffVerif.Props.C13Inj"]
+MODULES = ["BeffVerif.Props.C13", "BeffVerif.Props.C13Inj", "BeffVerif.Props.C13Tree"]
 AUDIT = "BeffVerif/Audit/C13.lean"
 
 def run(chk):
@@ -17,7 +17,7 @@ def run(chk):
         "C13: collision resistance of SHA-256 is a cryptographic assumption, never a Lean axiom",
     ]
     chk.open_obligations += [
-        "injectivity of the Runtype-level token stream (Model/Hash256.h256) up to the declared equivalences: not proved; searched by the runtype-pair pass (c13.collision)",
+        "injectivity of the Runtype-level token stream is proved for CLOSED trees (Props/C13Tree: different_behaviour_different_stream / _bytes, every constructor, under SourceDeterminesMatch = the regular-expression source decides what it matches); for trees with named references (cycle offsets) it is not proved: searched by the runtype-pair pass (c13.collision)",
     ]
     quick = chk.tier == "quick"
     stats = []
